@@ -315,6 +315,29 @@ def _fold_constant_branches(stmts: List[ast.stmt]) -> List[ast.stmt]:
             if isinstance(node.op, ast.Not) and isinstance(node.operand, ast.Constant) and isinstance(node.operand.value, (bool, type(None))):
                 return ast.copy_location(ast.Constant(value=not node.operand.value), node)
             return node
+
+        def visit_Compare(self, node):
+            self.generic_visit(node)
+            # `None is not None`, `None is None`, `3 is None` after a literal argument took a parameter's place
+            if len(node.ops) == 1 and isinstance(node.ops[0], (ast.Is, ast.IsNot)) and isinstance(node.left, ast.Constant) and isinstance(node.comparators[0], ast.Constant) \
+                    and (node.left.value is None or node.comparators[0].value is None):
+                same = node.left.value is None and node.comparators[0].value is None
+                return ast.copy_location(ast.Constant(value=same if isinstance(node.ops[0], ast.Is) else not same), node)
+            return node
+
+        def visit_BoolOp(self, node):
+            self.generic_visit(node)
+            if isinstance(node.op, ast.And):
+                if any(isinstance(v, ast.Constant) and isinstance(v.value, (bool, type(None))) and not v.value for v in node.values):
+                    # `x and False` is falsy whatever x is; as a branch test that is all that matters (x is a plain name / attribute)
+                    if all(isinstance(v, (ast.Constant, ast.Name, ast.Attribute)) for v in node.values):
+                        return ast.copy_location(ast.Constant(value=False), node)
+                vals = [v for v in node.values if not (isinstance(v, ast.Constant) and v.value is True)]
+                if len(vals) == 1:
+                    return vals[0]
+                if vals and len(vals) < len(node.values):
+                    node.values = vals
+            return node
     out: List[ast.stmt] = []
     for st in stmts:
         st = F().visit(st)
